@@ -92,7 +92,7 @@ def check_insert(m, f, rule):
     finds = [c for c in f.all_insts() if c.op == 'call' and c.callee and _map_finder(m, c.callee)]
     allocs = [c for c in f.all_insts() if c.op == 'call' and c.callee and (c.callee in ('malloc', 'calloc') or _callee_allocates(m, c.callee))]
     inserts = [c for c in f.all_insts() if c.op == 'call' and c.callee in ('cstl_rbtree_insert', 'cstl_bintree_insert')]
-    iters = [c for c in f.all_insts() if c.op == 'call' and c.callee and 'iterator_init' in c.callee]
+    iters = [c for c in f.all_insts() if c.op == 'call' and c.callee and _iter_builder(m, c.callee) is not None]
     if len(finds) != 1 or not allocs or not inserts:
         rule.undecided('cstl_map_insert', 'find / node allocation / tree insert calls not recognised (%d/%d/%d)' % (len(finds), len(allocs), len(inserts)), floc(m, f))
         return
@@ -111,7 +111,7 @@ def check_insert(m, f, rule):
             if ins in inserts:
                 return (na, ins_nodes + (ps.lookup(_k(strip_bitcasts(f, ins.o[1]))),), it)
             if ins in iters:
-                return (na, ins_nodes, ps.lookup(_k(strip_bitcasts(f, ins.o[2]))))
+                return (na, ins_nodes, ps.lookup(_k(strip_bitcasts(f, ins.o[_iter_builder(m, ins.callee)]))))
         return st
 
     try:
@@ -162,6 +162,19 @@ def check_insert(m, f, rule):
         rule.violation('cstl_map_insert', '; '.join(sorted(bad)[:4]), floc(m, f), {})
     else:
         rule.ok('cstl_map_insert', '%d exit states: found -> 1, new -> insert once + 0, failed -> -1' % len(res.exits), floc(m, f))
+
+
+def _iter_builder(m, name):
+    """a private function of map.c that fills an iterator from a node (stores `_` := that node): index of its node parameter"""
+    g = m.pfn(name)
+    if g is None or not (g.file or '').endswith('map.c') or g.linkage != 'internal':
+        return None
+    for s in g.all_insts():
+        if s.op == 'store' and resolve_addr(g, s.o[1]).fsteps[-1:] == (('cstl_map_iterator_t', '_'),):
+            v = strip_bitcasts(g, s.o[0]) if isinstance(s.o[0], str) else s.o[0]
+            if isinstance(v, str) and v.startswith('$') and v[1:].isdigit():
+                return int(v[1:])
+    return None
 
 
 def _map_finder(m, name):
@@ -245,8 +258,6 @@ def check_erase(m, f, rule):
                 if a.root == '$2':
                     if ps.knows(('ne', '$2', 'null')) is not True:
                         bad.add('the out-parameter is written without a NULL check')
-                    if out == 'none' and z:
-                        return (n, det, 'early')
                     return (n, det, 'detached' if z else 'attached')
                 if strip_bitcasts(f, a.root) == it:
                     return (n, z, out)
@@ -283,7 +294,6 @@ def check_erase(m, f, rule):
         wants = ps.knows(('ne', '$2', 'null'))
         if wants is True and out != 'detached':
             bad.add({'none': 'the iterator is not reported although the caller asked for it',
-                     'early': 'the reported iterator is detached before it is filled',
                      'attached': 'the reported iterator is not detached (`_` := NULL)'}[out])
         if wants is None and out != 'none':
             bad.add('the out-parameter is written without a NULL check')
